@@ -1,1 +1,695 @@
-fn main(){}
+//! C20 — parsers and templates can be shared across threads without changing results.
+//!
+//! Controlled scheduler (`vsched`): real OS threads, one baton.  A managed
+//! thread enters the scheduler at scheduling points: lock acquire / lock
+//! released of the lazy partial cache (hook shim in liquid-core, feature
+//! `verif-hooks`), inside the critical section (a `PartialSource` whose
+//! `try_get` is a point), between template elements (a `{% yield %}` tag) and
+//! around every API call.  Exploration is a stateless, preemption-bounded DFS
+//! with prefix replay.
+
+use lqv_core::report::{FamilyStat, Report, Tier};
+use serde_json::json;
+use std::collections::{HashMap, HashSet};
+use std::io::Write;
+use std::sync::{Arc, Condvar, Mutex};
+use std::time::Duration;
+
+// ------------------------------------------------------------------ controlled scheduler
+
+#[derive(Clone, Debug, PartialEq)]
+enum St {
+    NotStarted,
+    Ready,
+    WantLock(usize),
+    Running,
+    Finished,
+}
+
+#[derive(Clone, Debug)]
+struct Choice {
+    enabled: Vec<usize>,
+    chosen_idx: usize,
+    running_enabled: bool,
+}
+
+struct Inner {
+    st: Vec<St>,
+    current: Option<usize>,
+    owner: HashMap<usize, usize>,
+    prefix: Vec<usize>,
+    choices: Vec<Choice>,
+    trace: Vec<(usize, &'static str)>,
+    deadlock: bool,
+    divergence: Option<String>,
+}
+
+struct Sched {
+    m: Mutex<Inner>,
+    cv: Condvar,
+}
+
+thread_local! { static TID: std::cell::Cell<Option<usize>> = const { std::cell::Cell::new(None) }; }
+static SCHED: Mutex<Option<Arc<Sched>>> = Mutex::new(None);
+
+impl Sched {
+    fn new(n: usize, prefix: Vec<usize>) -> Arc<Sched> {
+        Arc::new(Sched {
+            m: Mutex::new(Inner { st: vec![St::NotStarted; n], current: None, owner: HashMap::new(), prefix, choices: vec![], trace: vec![], deadlock: false, divergence: None }),
+            cv: Condvar::new(),
+        })
+    }
+
+    /// canonical order: the running thread first if still enabled, then ascending ids
+    fn enabled(g: &Inner) -> Vec<usize> {
+        let mut v = vec![];
+        let cur = g.current;
+        let is_en = |i: usize| match &g.st[i] {
+            St::Ready => true,
+            St::WantLock(a) => !g.owner.contains_key(a),
+            _ => false,
+        };
+        if let Some(c) = cur {
+            if is_en(c) {
+                v.push(c);
+            }
+        }
+        for i in 0..g.st.len() {
+            if Some(i) != cur && is_en(i) {
+                v.push(i);
+            }
+        }
+        v
+    }
+
+    fn schedule(&self, g: &mut Inner) {
+        if g.st.iter().any(|s| *s == St::NotStarted) {
+            g.current = None;
+            return;
+        }
+        let en = Self::enabled(g);
+        if en.is_empty() {
+            if !g.st.iter().all(|s| *s == St::Finished) {
+                g.deadlock = true;
+            }
+            g.current = None;
+            self.cv.notify_all();
+            return;
+        }
+        let running_enabled = g.current.map(|c| en[0] == c).unwrap_or(false);
+        let idx = if en.len() > 1 {
+            let k = g.choices.len();
+            let idx = if k < g.prefix.len() {
+                let i = g.prefix[k];
+                if i >= en.len() {
+                    g.divergence = Some(format!("choice #{k} = {i} out of range ({} enabled) while replaying a prefix", en.len()));
+                    0
+                } else {
+                    i
+                }
+            } else {
+                0
+            };
+            g.choices.push(Choice { enabled: en.clone(), chosen_idx: idx, running_enabled });
+            idx
+        } else {
+            0
+        };
+        let t = en[idx];
+        if let St::WantLock(a) = g.st[t].clone() {
+            g.owner.insert(a, t);
+        }
+        g.st[t] = St::Running;
+        g.current = Some(t);
+        self.cv.notify_all();
+    }
+
+    fn wait_turn(&self, mut g: std::sync::MutexGuard<'_, Inner>, me: usize) {
+        while g.current != Some(me) {
+            if g.deadlock {
+                drop(g);
+                // unwind out of the blocked operation; hooks are no-ops from now on
+                panic!("vsched: deadlock");
+            }
+            g = self.cv.wait(g).unwrap();
+        }
+    }
+
+    fn start(&self, me: usize) {
+        let mut g = self.m.lock().unwrap();
+        g.st[me] = St::Ready;
+        if g.st.iter().all(|s| *s != St::NotStarted) && g.current.is_none() {
+            self.schedule(&mut g);
+        }
+        self.wait_turn(g, me);
+    }
+
+    fn point(&self, me: usize, label: &'static str, st: St) {
+        let mut g = self.m.lock().unwrap();
+        if g.deadlock {
+            return;
+        }
+        g.trace.push((me, label));
+        g.st[me] = st;
+        self.schedule(&mut g);
+        self.wait_turn(g, me);
+    }
+
+    fn released(&self, me: usize, addr: usize) {
+        let mut g = self.m.lock().unwrap();
+        g.owner.remove(&addr);
+        if g.deadlock {
+            return;
+        }
+        if std::thread::panicking() {
+            // a guard dropped while unwinding: record, but never block inside a drop during a panic
+            g.trace.push((me, "released-while-unwinding"));
+            return;
+        }
+        g.trace.push((me, "released"));
+        g.st[me] = St::Ready;
+        self.schedule(&mut g);
+        self.wait_turn(g, me);
+    }
+
+    fn finish(&self, me: usize) {
+        let mut g = self.m.lock().unwrap();
+        g.trace.push((me, "finish"));
+        g.st[me] = St::Finished;
+        if g.deadlock {
+            return;
+        }
+        self.schedule(&mut g);
+    }
+}
+
+fn cur() -> Option<(Arc<Sched>, usize)> {
+    let t = TID.with(|t| t.get())?;
+    let s = SCHED.lock().unwrap_or_else(|e| e.into_inner()).clone()?;
+    Some((s, t))
+}
+
+fn hook(kind: u32, id: usize) {
+    if let Some((s, me)) = cur() {
+        match kind {
+            liquid_core::verif_hooks::LOCK_ACQUIRE => s.point(me, "acquire", St::WantLock(id)),
+            liquid_core::verif_hooks::LOCK_RELEASED => s.released(me, id),
+            _ => {}
+        }
+    }
+}
+
+fn yield_point(label: &'static str) {
+    if let Some((s, me)) = cur() {
+        s.point(me, label, St::Ready);
+    }
+}
+
+// ------------------------------------------------------------------ plugin-API scheduling points
+
+#[derive(Clone, Debug, Default)]
+struct YieldTag;
+#[derive(Debug)]
+struct YieldR;
+impl liquid_core::TagReflection for YieldTag {
+    fn tag(&self) -> &str {
+        "yield"
+    }
+    fn description(&self) -> &str {
+        ""
+    }
+}
+impl liquid_core::ParseTag for YieldTag {
+    fn parse(&self, mut a: liquid_core::TagTokenIter<'_>, _o: &liquid_core::Language) -> liquid_core::Result<Box<dyn liquid_core::Renderable>> {
+        a.expect_nothing()?;
+        Ok(Box::new(YieldR))
+    }
+    fn reflection(&self) -> &dyn liquid_core::TagReflection {
+        self
+    }
+}
+impl liquid_core::Renderable for YieldR {
+    fn render_to(&self, _w: &mut dyn Write, _r: &dyn liquid_core::Runtime) -> liquid_core::Result<()> {
+        yield_point("yield");
+        Ok(())
+    }
+}
+
+#[derive(Debug, Default, Clone)]
+struct Src(HashMap<String, String>);
+impl liquid::partials::PartialSource for Src {
+    fn contains(&self, n: &str) -> bool {
+        self.0.contains_key(n)
+    }
+    fn names(&self) -> Vec<&str> {
+        self.0.keys().map(|s| s.as_str()).collect()
+    }
+    fn try_get<'a>(&'a self, n: &str) -> Option<std::borrow::Cow<'a, str>> {
+        // called by the lazy store while it holds the cache lock, right before compiling
+        yield_point("source");
+        self.0.get(n).map(|s| s.as_str().into())
+    }
+}
+
+// ------------------------------------------------------------------ the shared world and the operations
+
+const PARTIALS: [(&str, &str); 5] = [
+    ("m", "m{% cycle 'a', 'b' %}"),
+    ("p", "[{% cycle 'a', 'b', 'c' %}{% yield %}{% cycle 'a', 'b', 'c' %}{% increment pc %}]"),
+    ("bad", "{% if %}{{ !! }}"),
+    ("q", "<{% include 'p' %}{% yield %}{% ifchanged %}q{% endifchanged %}>"),
+    ("boom", "pre{% yield %}{{ undefined_in_partial }}post"),
+];
+
+const TEMPLATES: [&str; 7] = [
+    // 0: includes the lazily compiled partial twice
+    "A{% yield %}{% include 'p' %}{% yield %}{% increment c %}{% yield %}{% include 'p' %}",
+    // 1: broken partial
+    "B{% yield %}{% include 'bad' %}after",
+    // 2: stateful constructs
+    "{% for i in (1..3) %}{% cycle 'x', 'y' %}{% yield %}{% increment n %}{% ifchanged %}{{ i }}{% endifchanged %}{% capture c %}{{ i }}{% yield %}c{% endcapture %}{{ c }}{% if i == 2 %}{% break %}{% endif %}{% endfor %}|{% increment n %}",
+    // 3: nested lazily compiled partials, render and include
+    "C{% render 'q' %}{% yield %}{% include 'q' %}",
+    // 4: fails mid-render after touching a partial
+    "D{% include 'p' %}{% yield %}{% include 'boom' %}never",
+    // 5: missing partial through a dynamic name
+    "E{% yield %}{% include name %}",
+    // 6: minimal
+    "{% include 'm' %}{% yield %}{% include 'm' %}",
+];
+
+struct World {
+    parser: liquid::Parser,
+    templates: Vec<liquid::Template>,
+    store: Box<dyn liquid_core::runtime::PartialStore + Send + Sync>,
+    data: liquid::Object,
+}
+
+fn source() -> Src {
+    let mut src = Src::default();
+    for (n, t) in PARTIALS {
+        src.0.insert(n.to_string(), t.to_string());
+    }
+    src
+}
+
+fn language() -> Arc<liquid_core::parser::Language> {
+    use liquid_lib::stdlib;
+    let mut l = liquid_core::parser::Language::empty();
+    l.blocks.register("if".to_string(), stdlib::IfBlock.into());
+    l.blocks.register("ifchanged".to_string(), stdlib::IfChangedBlock.into());
+    l.tags.register("include".to_string(), stdlib::IncludeTag.into());
+    l.tags.register("cycle".to_string(), stdlib::CycleTag.into());
+    l.tags.register("increment".to_string(), stdlib::IncrementTag.into());
+    l.tags.register("yield".to_string(), Box::new(YieldTag));
+    Arc::new(l)
+}
+
+fn world() -> World {
+    use liquid_core::partials::PartialCompiler;
+    let parser = liquid::ParserBuilder::with_stdlib().tag(YieldTag).partials(liquid::partials::LazyCompiler::new(source())).build().expect("parser builds");
+    let templates = TEMPLATES.iter().map(|t| parser.parse(t).expect("template parses")).collect();
+    let store = liquid::partials::LazyCompiler::new(source()).compile(language()).expect("store compiles");
+    let mut data = liquid::Object::new();
+    data.insert("name".into(), liquid::model::Value::scalar("missing"));
+    World { parser, templates, store, data }
+}
+
+#[derive(Clone, Copy, Debug, PartialEq)]
+enum Op {
+    Render(usize),
+    /// parse the template text again with the shared parser, then render the fresh copy
+    ParseRender(usize),
+    /// parse only (also text that does not parse)
+    Parse(&'static str),
+    StoreGet(&'static str),
+    StoreTryGet(&'static str),
+}
+
+fn first_line(e: &str) -> String {
+    e.lines().find(|l| !l.trim().is_empty()).unwrap_or("").chars().take(120).collect()
+}
+
+fn render_store_partial(w: &World, r: Arc<dyn liquid_core::Renderable>) -> String {
+    let rt = liquid_core::runtime::RuntimeBuilder::new().set_partials(w.store.as_ref()).build();
+    let mut buf = Vec::new();
+    match r.render_to(&mut buf, &rt) {
+        Ok(()) => format!("ok:{}", String::from_utf8_lossy(&buf)),
+        Err(e) => format!("err:{}", first_line(&e.to_string())),
+    }
+}
+
+fn call(w: &World, op: Op) -> String {
+    let r = std::panic::catch_unwind(std::panic::AssertUnwindSafe(|| match op {
+        Op::Render(i) => match w.templates[i].render(&w.data) {
+            Ok(s) => format!("ok:{s}"),
+            Err(e) => format!("err:{}", first_line(&e.to_string())),
+        },
+        Op::ParseRender(i) => match w.parser.parse(TEMPLATES[i]) {
+            Ok(t) => match t.render(&w.data) {
+                Ok(s) => format!("ok:{s}"),
+                Err(e) => format!("err:{}", first_line(&e.to_string())),
+            },
+            Err(e) => format!("parse-err:{}", first_line(&e.to_string())),
+        },
+        Op::Parse(text) => match w.parser.parse(text) {
+            Ok(_) => "parsed".to_string(),
+            Err(e) => format!("parse-err:{}", first_line(&e.to_string())),
+        },
+        Op::StoreGet(n) => match w.store.get(n) {
+            Ok(r) => render_store_partial(w, r),
+            Err(e) => format!("get-err:{}", first_line(&e.to_string())),
+        },
+        Op::StoreTryGet(n) => match w.store.try_get(n) {
+            Some(r) => render_store_partial(w, r),
+            None => "none".to_string(),
+        },
+    }));
+    match r {
+        Ok(s) => s,
+        Err(p) => {
+            let m = p.downcast_ref::<&str>().map(|s| s.to_string()).or_else(|| p.downcast_ref::<String>().cloned()).unwrap_or_default();
+            format!("PANIC:{m}")
+        }
+    }
+}
+
+struct Harness {
+    name: &'static str,
+    what: &'static str,
+    plan: Vec<Vec<Op>>,
+}
+
+fn harnesses() -> Vec<Harness> {
+    vec![
+        Harness { name: "H0", what: "two threads, one call each, smallest template touching a not-yet-compiled partial (explored without a preemption bound)", plan: vec![vec![Op::Render(6)], vec![Op::Render(6)]] },
+        Harness { name: "H1", what: "two threads render the same template including the same not-yet-compiled partial", plan: vec![vec![Op::Render(0)], vec![Op::Render(0)]] },
+        Harness { name: "H2", what: "a valid and a broken partial first-touched by different threads, then swapped", plan: vec![vec![Op::Render(0), Op::Render(1)], vec![Op::Render(1), Op::Render(0)]] },
+        Harness { name: "H3", what: "renders with cycle/increment/ifchanged/capture/break while another thread parses with the same parser", plan: vec![vec![Op::Render(2), Op::Render(3)], vec![Op::ParseRender(2), Op::Parse("{% if %}{{ !! }}")]] },
+        Harness { name: "H4", what: "three threads, one partial, through get, try_get and include", plan: vec![vec![Op::StoreGet("p"), Op::StoreTryGet("bad")], vec![Op::StoreTryGet("p"), Op::StoreGet("bad")], vec![Op::StoreGet("q")]] },
+        Harness { name: "H5", what: "a render that fails midway (partial error, missing partial) while another renders", plan: vec![vec![Op::Render(4)], vec![Op::Render(3)], vec![Op::Render(5)]] },
+    ]
+}
+
+struct Exec {
+    choices: Vec<Choice>,
+    results: Vec<Vec<String>>,
+    later: Vec<Vec<String>>,
+    trace: Vec<(usize, &'static str)>,
+    deadlock: bool,
+}
+
+enum RunErr {
+    Stuck(String),
+    Divergence(String),
+}
+
+fn run(prefix: Vec<usize>, plan: &[Vec<Op>]) -> Result<Exec, RunErr> {
+    let w = Arc::new(world());
+    let s = Sched::new(plan.len(), prefix.clone());
+    *SCHED.lock().unwrap_or_else(|e| e.into_inner()) = Some(s.clone());
+    let (tx, rx) = std::sync::mpsc::channel::<(usize, Vec<String>)>();
+    let mut hs = vec![];
+    for (tid, ops) in plan.iter().enumerate() {
+        let (s, w, ops, tx) = (s.clone(), w.clone(), ops.clone(), tx.clone());
+        hs.push(std::thread::spawn(move || {
+            TID.with(|t| t.set(Some(tid)));
+            let r = std::panic::catch_unwind(std::panic::AssertUnwindSafe(|| {
+                s.start(tid);
+                let mut out = vec![];
+                for op in ops {
+                    yield_point("call");
+                    out.push(call(&w, op));
+                    yield_point("return");
+                }
+                out
+            }));
+            let out = r.unwrap_or_else(|_| vec!["PANIC:thread".to_string()]);
+            s.finish(tid);
+            let _ = tx.send((tid, out));
+        }));
+    }
+    drop(tx);
+    let mut results = vec![Vec::new(); plan.len()];
+    for _ in 0..plan.len() {
+        match rx.recv_timeout(Duration::from_secs(10)) {
+            Ok((tid, out)) => results[tid] = out,
+            Err(_) => {
+                let g = s.m.lock().unwrap_or_else(|e| e.into_inner());
+                if g.deadlock {
+                    break;
+                }
+                return Err(RunErr::Stuck(format!("a managed thread did not reach its next scheduling point within 10 s (prefix {prefix:?}, trace so far {:?}): some blocking operation is not owned by the scheduler", g.trace)));
+            }
+        }
+    }
+    let deadlock = s.m.lock().unwrap_or_else(|e| e.into_inner()).deadlock;
+    if !deadlock {
+        for h in hs {
+            let _ = h.join();
+        }
+    }
+    *SCHED.lock().unwrap_or_else(|e| e.into_inner()) = None;
+    // later use: every call again, sequentially, on the same shared objects
+    let later = if deadlock { vec![] } else { plan.iter().map(|ops| ops.iter().map(|op| call(&w, *op)).collect()).collect() };
+    let g = s.m.lock().unwrap_or_else(|e| e.into_inner());
+    if let Some(d) = &g.divergence {
+        return Err(RunErr::Divergence(d.clone()));
+    }
+    Ok(Exec { choices: g.choices.clone(), results, later, trace: g.trace.clone(), deadlock })
+}
+
+/// sequential baseline: each call alone on a fresh world
+fn baseline(plan: &[Vec<Op>]) -> Vec<Vec<String>> {
+    plan.iter().map(|ops| ops.iter().map(|op| call(&world(), *op)).collect()).collect()
+}
+
+/// What a sequential re-run on the *used* world should give: the same as the
+/// baseline (results are functions of template, partials and data alone).
+fn explore(report: &Report, h: &Harness, bound: usize, unbounded: bool) -> Result<(), String> {
+    let base = baseline(&h.plan);
+    let base2 = baseline(&h.plan);
+    if base != base2 {
+        return Err(format!("{}: sequential baseline is not deterministic", h.name));
+    }
+    let mut stack: Vec<Vec<usize>> = vec![vec![]];
+    let (mut n, mut points, mut maxpts) = (0u64, 0u64, 0usize);
+    let mut distinct: HashSet<Vec<(usize, &'static str)>> = HashSet::new();
+    let mut first = true;
+    let t0 = std::time::Instant::now();
+    while let Some(prefix) = stack.pop() {
+        let plen = prefix.len();
+        let x = match run(prefix.clone(), &h.plan) {
+            Ok(x) => x,
+            Err(RunErr::Stuck(m)) | Err(RunErr::Divergence(m)) => return Err(format!("{}: {m}", h.name)),
+        };
+        n += 1;
+        report.eval();
+        points += x.trace.len() as u64;
+        maxpts = maxpts.max(x.trace.len());
+        if distinct.len() < 3_000_000 {
+            distinct.insert(x.trace.clone());
+        }
+        let sched: Vec<usize> = x.choices.iter().map(|c| c.chosen_idx).collect();
+        let mut problem: Option<(&str, String)> = None;
+        if x.deadlock {
+            problem = Some(("deadlock", "no enabled thread while some thread is unfinished".into()));
+        } else if x.results.iter().flatten().any(|r| r.starts_with("PANIC")) {
+            problem = Some(("panic", format!("results {:?}", x.results)));
+        } else if x.results != base {
+            problem = Some(("result-differs-from-sequential", format!("concurrent results {:?} but sequential baseline {:?}", x.results, base)));
+        } else if x.later != base {
+            problem = Some(("later-use-differs", format!("sequential re-run on the used objects gives {:?} but baseline {:?}", x.later, base)));
+        }
+        // determinism of replay: the first schedule of every harness and every failing schedule run twice
+        if first || problem.is_some() {
+            first = false;
+            let y = match run(sched.clone(), &h.plan) {
+                Ok(y) => y,
+                Err(RunErr::Stuck(m)) | Err(RunErr::Divergence(m)) => return Err(format!("{}: {m}", h.name)),
+            };
+            if y.trace != x.trace || y.results != x.results {
+                return Err(format!("{}: replaying schedule {sched:?} gave a different trace or results: the harness does not own all nondeterminism", h.name));
+            }
+        }
+        if let Some((clause, detail)) = problem {
+            report.violation(
+                &format!("C20|{}|{clause}", h.name),
+                sched.len() as u64 * 1000 + n.min(999),
+                json!({"kind":"schedule","harness":h.name,"what":h.what,"plan":format!("{:?}", h.plan),"schedule":sched,"preemption_bound":bound,"trace":x.trace.iter().map(|(t,l)| format!("T{t}:{l}")).collect::<Vec<_>>(),"results":x.results,"baseline":base}),
+                format!("{} schedule {sched:?}: {detail}", h.name),
+            );
+        }
+        let mut pre = vec![0usize; x.choices.len() + 1];
+        for (i, c) in x.choices.iter().enumerate() {
+            pre[i + 1] = pre[i] + if c.running_enabled && c.chosen_idx != 0 { 1 } else { 0 };
+        }
+        for i in plen..x.choices.len() {
+            let c = &x.choices[i];
+            for alt in 1..c.enabled.len() {
+                let cost = pre[i] + if c.running_enabled { 1 } else { 0 };
+                if !unbounded && cost > bound {
+                    continue;
+                }
+                let mut p: Vec<usize> = x.choices[..i].iter().map(|c| c.chosen_idx).collect();
+                p.push(alt);
+                stack.push(p);
+            }
+        }
+    }
+    report.states.fetch_add(distinct.len() as u64, std::sync::atomic::Ordering::Relaxed);
+    report.transitions.fetch_add(points, std::sync::atomic::Ordering::Relaxed);
+    report.traces.fetch_add(n, std::sync::atomic::Ordering::Relaxed);
+    report.nontrivial.fetch_add(distinct.len() as u64, std::sync::atomic::Ordering::Relaxed);
+    for b in base.iter().flatten() {
+        report.outcome(b);
+    }
+    report.family(FamilyStat {
+        name: format!("{} / {} threads / preemption bound {}", h.name, h.plan.len(), if unbounded { "unbounded".to_string() } else { bound.to_string() }),
+        cases: n,
+        nontrivial: distinct.len() as u64,
+        skipped: 0,
+        note: format!("{}; schedules={n} distinct interleavings={} max scheduling points per execution={maxpts} ({:.1}s)", h.what, distinct.len(), t0.elapsed().as_secs_f64()),
+    });
+    if distinct.len() < 2 && h.plan.len() > 1 {
+        return Err(format!("{}: only one distinct interleaving explored: nothing collided (vacuous)", h.name));
+    }
+    Ok(())
+}
+
+/// Labelled sampling, not coverage: the same bodies free-running on barrier-released threads.
+fn stress(report: &Report, rounds: usize) {
+    let hs = harnesses();
+    let mut n = 0u64;
+    for h in hs.iter().take(3) {
+        let base = baseline(&h.plan);
+        for round in 0..rounds {
+            let w = Arc::new(world());
+            let copies = 8;
+            let barrier = Arc::new(std::sync::Barrier::new(h.plan.len() * copies));
+            let mut handles = vec![];
+            for c in 0..copies {
+                for (tid, ops) in h.plan.iter().enumerate() {
+                    let (w, ops, barrier) = (w.clone(), ops.clone(), barrier.clone());
+                    handles.push((tid, std::thread::spawn(move || {
+                        barrier.wait();
+                        if (c + tid) % 3 == 1 {
+                            std::thread::yield_now();
+                        }
+                        ops.iter().map(|op| call(&w, *op)).collect::<Vec<_>>()
+                    })));
+                }
+            }
+            for (tid, hd) in handles {
+                n += 1;
+                let got = hd.join().unwrap_or_else(|_| vec!["PANIC:thread".into()]);
+                if got != base[tid] {
+                    report.violation(&format!("C20|{}|stress-result-differs", h.name), round as u64, json!({"kind":"stress","harness":h.name,"results":got,"baseline":base[tid]}), format!("free-running threads: {got:?} vs sequential {:?}", base[tid]));
+                }
+            }
+        }
+    }
+    report.extra("auxiliary_stress_sampling", json!({"label": "SAMPLING, not claimed as coverage", "thread_runs": n}));
+}
+
+fn main() {
+    let args: Vec<String> = std::env::args().collect();
+    if args.len() >= 4 && args[1] == "probe" {
+        // measurement aid: lqv-sched probe <harness index> <bound|u> : prints schedule counts
+        std::panic::set_hook(Box::new(|_| {}));
+        liquid_core::verif_hooks::install(Some(hook));
+        let report = Report::new("C20", Tier::Quick, "model_checking");
+        let hs = harnesses();
+        let hi: usize = args[2].parse().unwrap();
+        let (b, u) = if args[3] == "u" { (0, true) } else { (args[3].parse().unwrap(), false) };
+        let r = explore(&report, &hs[hi], b, u);
+        eprintln!("probe result: {r:?}");
+        return;
+    }
+    if args.len() >= 4 && args[1] == "worker" {
+        std::panic::set_hook(Box::new(|_| {}));
+        liquid_core::verif_hooks::install(Some(hook));
+        let report = Report::new("C20", Tier::Quick, "model_checking");
+        let hs = harnesses();
+        let hi: usize = args[2].parse().unwrap();
+        let (b, u) = if args[3] == "u" { (0, true) } else { (args[3].parse().unwrap(), false) };
+        if let Err(m) = explore(&report, &hs[hi], b, u) {
+            eprintln!("[C20] machinery failure: {m}");
+            std::process::exit(2);
+        }
+        println!("{}", report.export());
+        return;
+    }
+    if args.len() < 3 || args[1] != "run" || args[2] != "C20" {
+        eprintln!("usage: lqv-sched run C20 quick|thorough");
+        std::process::exit(2);
+    }
+    let tier = if args.get(3).map(|s| s.as_str()) == Some("thorough") { Tier::Thorough } else { Tier::Quick };
+    // panics inside managed threads are part of the verdict, not noise on stderr
+    std::panic::set_hook(Box::new(|_| {}));
+    liquid_core::verif_hooks::install(Some(hook));
+    let report = Report::new("C20", tier, "model_checking");
+    report.set_rule("stateless preemption-bounded DFS over all interleavings of 2-3 real threads (1-2 API calls each on shared Parser/Template/PartialStore objects built with the lazy compiler) at the scheduling points: cache-lock acquire / release (hook shim), PartialSource::try_get inside the critical section, a {% yield %} tag between template elements, and before/after every API call; every execution rebuilds the shared objects and replays a choice prefix; states = distinct point interleavings, transitions = scheduling points executed, traces_validated = schedules whose every result was compared with the sequential baseline; non-trivial = distinct interleavings");
+    report.assume("sequentially consistent interleavings only (no atomics or unsafe of the crates' own are involved; Mutex, Arc and LazyLock are std's)");
+    report.assume("scheduling points at the lock, inside the critical section and between elements suffice because the shared types are Send + Sync by construction and contain no other cross-thread channel");
+    let hs = harnesses();
+    // (harness index, preemption bound, unbounded); bounds are iterated 0,1,..: the first
+    // counterexample found has the fewest preemptions
+    let tasks: Vec<(usize, usize, bool)> = if tier.thorough() {
+        let mut t = vec![(0, 0, true)];
+        for (hi, maxb) in [(1usize, 5usize), (2, 4), (3, 4), (4, 3), (5, 3)] {
+            for b in 0..=maxb {
+                t.push((hi, b, false));
+            }
+        }
+        t
+    } else {
+        let mut t = vec![(0, 0, true)];
+        for (hi, maxb) in [(1usize, 2usize), (2, 2), (3, 2), (4, 1), (5, 1)] {
+            for b in 0..=maxb {
+                t.push((hi, b, false));
+            }
+        }
+        t
+    };
+    // every task runs in its own worker process (the scheduler is process-wide state); up to 16 at a time
+    let exe = std::env::current_exe().expect("current exe");
+    let maxpar = std::thread::available_parallelism().map(|n| n.get()).unwrap_or(4).min(16);
+    let mut pending: std::collections::VecDeque<(usize, usize, bool)> = tasks.into_iter().collect();
+    let mut running: Vec<(std::process::Child, (usize, usize, bool))> = Vec::new();
+    let mut results: Vec<((usize, usize, bool), serde_json::Value)> = Vec::new();
+    while !pending.is_empty() || !running.is_empty() {
+        while running.len() < maxpar {
+            let Some(t) = pending.pop_front() else { break };
+            let child = std::process::Command::new(&exe)
+                .args(["worker", &t.0.to_string(), &if t.2 { "u".to_string() } else { t.1.to_string() }])
+                .stdout(std::process::Stdio::piped())
+                .stderr(std::process::Stdio::inherit())
+                .spawn()
+                .expect("spawn worker");
+            running.push((child, t));
+        }
+        let (child, t) = running.remove(0);
+        let out = child.wait_with_output().expect("worker output");
+        if !out.status.success() {
+            eprintln!("[C20] machinery failure: worker {t:?} ended with {:?}", out.status);
+            std::process::exit(2);
+        }
+        let text = String::from_utf8_lossy(&out.stdout);
+        let line = text.lines().rev().find(|l| l.starts_with('{')).unwrap_or("{}");
+        match serde_json::from_str::<serde_json::Value>(line) {
+            Ok(j) => results.push((t, j)),
+            Err(e) => {
+                eprintln!("[C20] machinery failure: worker {t:?} output unreadable: {e}");
+                std::process::exit(2);
+            }
+        }
+    }
+    results.sort_by_key(|(t, _)| *t);
+    for (_, j) in &results {
+        report.import(j);
+    }
+    stress(&report, if tier.thorough() { 200 } else { 20 });
+    report.sample(json!({"harness": "H1", "plan": format!("{:?}", hs[0].plan), "schedule": [0, 1, 0, 1], "points": ["call", "yield", "acquire", "source", "released", "return", "finish"]}));
+    std::process::exit(report.finish());
+}
